@@ -334,8 +334,8 @@ impl Package {
 
                 // Check if the export name is an interface name
                 let (export_name, kind) = world.exports.get_index(0).unwrap();
-                match ComponentName::new(export_name, 0).unwrap().kind() {
-                    ComponentNameKind::Interface(_) => {}
+                match ComponentName::new(export_name, 0) {
+                    Ok(name) if matches!(name.kind(), ComponentNameKind::Interface(_)) => {}
                     _ => continue,
                 }
 
